@@ -37,6 +37,11 @@ BE32(n)     == [op |-> "be32", n |-> n]
 BE64(n)     == [op |-> "be64", n |-> n]
 LE64(n)     == [op |-> "le64", n |-> n]
 B64(t)      == [op |-> "b64", a |-> <<t>>]        \* standard alphabet, padded
+XorByte(t, b) == [op |-> "xorbyte", a |-> <<t>>, n |-> b]     \* every byte of t XOR the constant b
+PadZero(t, n) == [op |-> "padzero", a |-> <<t>>, n |-> n]     \* t followed by zero bytes up to length n
+Byte(b)     == [op |-> "byte", n |-> b]                       \* the single byte b
+\* sequential bindings (keeps long recurrences linear in size): binds = <<[name, val], ...>>
+Lets(binds, body) == [op |-> "lets", binds |-> binds, a |-> <<body>>]
 
 \* ---- primitive symbols (interpreted by the exported functions of kestrel_crypto) ----
 Sha(t)              == [op |-> "sha256", a |-> <<t>>]
